@@ -1,7 +1,7 @@
 #!/bin/sh
 # tools/seedtest.sh <patch.diff> [ID ...]: apply a seeded change to /repo, run the checks, undo it.
 # Prints one line per check: <ID> exit=<rc> <VIOLATION line or OK summary>
-P="$1"; shift
+P=$(readlink -f "$1"); shift
 IDS="$@"
 [ -z "$IDS" ] && IDS=$(python3 -c "import json; print(' '.join(c['property_id'] for c in json.load(open('/verif/MANIFEST.json'))['checks']))")
 cd /repo || exit 2
@@ -10,7 +10,11 @@ git apply "$P" || { echo "patch does not apply"; exit 2; }
 cd /verif
 for id in $IDS; do
   out=$(bin/check $id 2>&1); rc=$?
-  line=$(echo "$out" | grep -E "^VIOLATION|KNOWN-FINDING|BUILD FAILURE" | head -2 | cut -c1-220 | tr '\n' ' ')
+  line=$(echo "$out" | grep -E "^VIOLATION|BUILD FAILURE" | head -2 | cut -c1-220 | tr '\n' ' ')
+  if [ -n "$line" ]; then
+    rp=$(echo "$line" | sed -n 's/.*replay=\([^ ]*\).*/\1/p')
+    [ -f "$rp" ] && line="$line :: $(python3 -c "import json,sys; d=json.load(open('$rp')); print(d.get('kind'), '|', str(d.get('case'))[:90], '|', str(d.get('implementation'))[:50], '|', str(d.get('reason', d.get('model','')))[:90])")"
+  fi
   [ -z "$line" ] && line=$(echo "$out" | tail -1 | cut -c1-160)
   echo "$id exit=$rc $line"
 done
